@@ -55,6 +55,18 @@ CHECKS = {
         note="reference transforms (cycling xor, rotl on int.from_bytes, reversed slices, bit reversal) live in mc/props/c15.py; "
              "stdlib codecs define compression; gzip byte equality not demanded (timestamp)",
         design="§3 C15"),
+    "C03": dict(
+        technique="bounded-exhaustive differential execution of the implementation against an independent reference interpreter (model) over typed term tiers x byte strings x values; every model behaviour in the explored space is replayed against the implementation",
+        text="mc/ref.py is an executable specification of the core wire formats written without importing construct (two's-complement "
+             "integers, hand-assembled IEEE-754 with round-to-nearest-even, LEB128/ZigZag, string terminator/padding/prefix rules, "
+             "label tables, declaration-order concatenation, length/count/padding/alignment arithmetic, region confinement). For every "
+             "term of tiers T1-T4 (T5 in thorough) the library and the reference are run on every byte string over a 6-symbol "
+             "alphabet up to length L and on every value of the term's domain plus invalid values; value, consumed byte count, "
+             "emitted bytes and accept/reject must agree. Small domains are exhaustive: every 8/16-bit integer through every public "
+             "spelling, all Float16 patterns, 256x12x2 Float32 and 2048x12x2 Float64 patterns, every VarInt/ZigZag below 2^14 (2^21 thorough).",
+        note="trusts mc/ref.py (about 900 lines, self-tested against struct for floats) and CPython's codecs for the codec step; "
+             "reject kinds compared coarsely; NaN payloads not compared",
+        design="§2.2, §3 C03"),
 }
 
 PENDING_REASON = "check not built yet in this round (see DESIGN.md §7 build order); it will be decided by the same bounded-exhaustive engine"
